@@ -541,7 +541,8 @@ func (c *constraint) matchesCaret(version *Version) bool {
 		// EXCEPT for specific cases like 1.0b1 vs 1.0.0 where the version format matters
 		if version.major == constraintVersion.major &&
 			version.minor == constraintVersion.minor &&
-			version.patch == constraintVersion.patch {
+			version.patch == constraintVersion.patch &&
+			version.extra == constraintVersion.extra {
 			// Check if this is the special case: ^1.0.0 should include 1.0b1
 			// but ^1.2.3 should NOT include 1.2.3-alpha
 			versionStr := strings.TrimSpace(version.String())
@@ -555,7 +556,8 @@ func (c *constraint) matchesCaret(version *Version) bool {
 			// General rule: exclude prereleases of the same version (like 1.2.3-alpha for ^1.2.3)
 			return false
 		}
-		return false // Don't accept prereleases of different versions
+		// A prerelease of another version is judged by its place in the order like any
+		// other version: ^1.2.3 is >=1.2.3 <2.0.0, which contains 1.4.0-beta1.
 	}
 
 	// For other versions (both stable or both prerelease), use standard >=constraint and <nextMajor logic
